@@ -943,10 +943,21 @@ func replaceRange(line *spanLine, x int, n int, insert Span, mode TextReadMode) 
 		// This effectively turns the operation into an insert after the wide character
 	}
 
-	// If we split a cell at the end, a space should fill in the gap
+	// If we split a wide character at the end, blanks fill the cells of it that stay
 	if splitWideAtEnd.Width > 0 {
-		insert.Text = insert.Text + " "
-		insert.Width += 1
+		gap := spans[endIdx].Width - endOffset - right.Width
+		switch {
+		case insert.Width == 0:
+			insert = Span{Style: splitWideAtEnd.Style, Rune: ' ', Width: gap}
+		case insert.Text == "" && insert.Rune == ' ':
+			insert.Width += gap
+		case insert.Text == "":
+			insert.Text = strings.Repeat(string(insert.Rune), insert.Width) + strings.Repeat(" ", gap)
+			insert.Width += gap
+		default:
+			insert.Text = insert.Text + strings.Repeat(" ", gap)
+			insert.Width += gap
+		}
 	}
 
 	// Compute the new slice length and where the suffix begins.
